@@ -40,6 +40,21 @@ type fileReport struct {
 // packages (relative dirs) instrumented
 var pkgDirs = []string{".", "internal", "internal/client", "internal/server"}
 
+// R6: range statements over maps in these functions iterate in sorted key
+// order (Go's randomised map iteration cannot be seeded).
+var sortedRangeFuncs = map[string]string{
+	"server.go:cancelAndWaitForStreams":         "h.streams",
+	"internal/client/multiplexer.go:closeError": "rm.handlers",
+	"internal/util.go:ToKeyValue":               "metadata.Join(mds...)",
+	"http.go:connectionCleaner":                 "goh.conns.value",
+}
+
+func exprString(e ast.Expr) string {
+	var b bytes.Buffer
+	printer.Fprint(&b, token.NewFileSet(), e)
+	return b.String()
+}
+
 // R5: wrap the single return expression of these functions.
 var trackFuncs = map[string]string{
 	"server.go:newHandler":                          "server.handler",
@@ -466,6 +481,13 @@ func (c *ctx) rewriteList(holder ast.Node, list []ast.Stmt) []ast.Stmt {
 		case *ast.GoStmt:
 			out = append(out, c.rewriteGo(st))
 
+		case *ast.RangeStmt:
+			if want, ok := sortedRangeFuncs[c.rel+":"+c.funcName]; ok && exprString(st.X) == want {
+				out = append(out, c.rewriteRange(st))
+				continue
+			}
+			out = append(out, s)
+
 		case *ast.SelectStmt:
 			out = append(out, c.rewriteSelect(st, terminalResult && last)...)
 
@@ -477,6 +499,43 @@ func (c *ctx) rewriteList(holder ast.Node, list []ast.Stmt) []ast.Stmt {
 }
 
 func (c *ctx) next() int { c.selN++; return c.selN }
+
+func isBlank(e ast.Expr) bool {
+	id, ok := e.(*ast.Ident)
+	return e == nil || (ok && id.Name == "_")
+}
+
+// rewriteRange: for K, V := range M {B}  =>  { m := M; for _, k := range simhook.SortedKeys(m) { K := k; V := m[k]; B } }
+func (c *ctx) rewriteRange(rs *ast.RangeStmt) ast.Stmt {
+	c.counts["range_sorted"]++
+	c.used = true
+	n := c.next()
+	mv := ast.NewIdent(fmt.Sprintf("_rm%d", n))
+	kv := ast.NewIdent(fmt.Sprintf("_rk%d", n))
+	tok := rs.Tok
+	if tok != token.DEFINE && tok != token.ASSIGN {
+		tok = token.DEFINE
+	}
+	var pre []ast.Stmt
+	if !isBlank(rs.Key) {
+		pre = append(pre, &ast.AssignStmt{Lhs: []ast.Expr{rs.Key}, Tok: tok, Rhs: []ast.Expr{kv}})
+		if tok == token.DEFINE {
+			pre = append(pre, &ast.AssignStmt{Lhs: []ast.Expr{ast.NewIdent("_")}, Tok: token.ASSIGN, Rhs: []ast.Expr{rs.Key}})
+		}
+	}
+	if !isBlank(rs.Value) {
+		pre = append(pre, &ast.AssignStmt{Lhs: []ast.Expr{rs.Value}, Tok: tok, Rhs: []ast.Expr{&ast.IndexExpr{X: mv, Index: kv}}})
+		if tok == token.DEFINE {
+			pre = append(pre, &ast.AssignStmt{Lhs: []ast.Expr{ast.NewIdent("_")}, Tok: token.ASSIGN, Rhs: []ast.Expr{rs.Value}})
+		}
+	}
+	body := &ast.BlockStmt{List: append(pre, rs.Body.List...)}
+	loop := &ast.RangeStmt{Key: ast.NewIdent("_"), Value: kv, Tok: token.DEFINE, X: hookCall("SortedKeys", mv), Body: body}
+	return &ast.BlockStmt{List: []ast.Stmt{
+		&ast.AssignStmt{Lhs: []ast.Expr{mv}, Tok: token.DEFINE, Rhs: []ast.Expr{rs.X}},
+		loop,
+	}}
+}
 
 func (c *ctx) rewriteGo(g *ast.GoStmt) ast.Stmt {
 	site := c.site("go")
